@@ -199,14 +199,14 @@ func vhBuild(ctx int, s []byte) vhCtx {
 		c.preOut = produced
 		c.symStart = w.bitLen()
 		return vhMerge(w, s, c)
-	case ctx == 6:
+	case ctx == 6 || ctx == 90:
 		// edge64K inside a dynamic block with very short codes (template 6: 'a', EOB,
 		// length 3 and length 258 all 2 bits, one distance code), so that packed
 		// pair/triple table entries (literal+EOB, literal+literal+EOB, literal+length)
 		// are looked up exactly at the end of the 64 KiB output window
 		k := verifrt.Param("K")
 		lit, dist := vhTemplate(6)
-		d := vbDynHeader(w, false, lit, dist, false)
+		d := vbDynHeader(w, ctx == 90, lit, dist, false)
 		d.sym(w, 97)
 		produced := 1
 		target := 2*historySize - k
@@ -225,6 +225,10 @@ func vhBuild(ctx int, s []byte) vhCtx {
 		c.preOut = produced
 		c.symStart = w.bitLen()
 		c = vhMerge(w, s, c)
+		if ctx == 90 {
+			// final block: the stream ends inside the window (source position at the window edge)
+			return c
+		}
 		w2 := &vbw{}
 		vbStored(w2, true, []byte("XYZ"))
 		c.stream = append(c.stream, w2.bytes()...)
